@@ -167,7 +167,7 @@ register(PropertySpec(
              "(shared with C05) a replay from a result cache hands on the false rows exactly when the evaluation it answers asked for them (below a negation every row of the original is a false row)"),
         Rule("HOOK-SELF", _lazy("subquery", "rule_hook_self"), 3,
              "(shared with C15) the attribute hook builds a new node per mention: not_(x.flag) must not invert the other bare uses of x.flag"),
-        Rule("DEDUP-TRUTH-UP", _lazy("binding", "rule_dedup_truth_up"), 2,
+        Rule("DEDUP-TRUTH-UP", _lazy("binding", "rule_dedup_truth_up"), 1,
              "(shared with C02) an operator asks its parent what to keep under the truth it can still have: below a negation the right side of the rewritten else-if must stay in the key"),
     ],
     explanation="Negation is a rewrite at construction time, so it is a function on syntax and is decided from the "
